@@ -64,15 +64,21 @@ func (w *world) killed(k int) bool {
 	return false
 }
 
-// otherFinished reports whether some other subscription of tuple k has ended (terminal received or
-// cancelled), i.e. whether the client had an occasion to regard a connection of that tuple as unused.
-func (w *world) otherFinished(k, i int) bool {
+// endedDuringSubscribe lists the subscriptions of tuple k other than i that ended (terminal received or
+// cancelled) while the Subscribe call of i was in flight: the only situation in which the client can
+// regard the connection as unused while i is on its way onto it.
+func (w *world) endedDuringSubscribe(k, i int) []int {
+	me := w.subs[i]
+	var out []int
 	for j, st := range w.subs {
-		if j != i && st.started && w.c.Subs[j].Tuple == k && (st.cancelIssued || st.terminalAt() >= 0) {
-			return true
+		if j == i || !st.started || w.c.Subs[j].Tuple != k || st.endSeq == 0 {
+			continue
+		}
+		if st.endSeq > me.startSeq && (me.returnSeq == 0 || st.endSeq < me.returnSeq) {
+			out = append(out, j)
 		}
 	}
-	return false
+	return out
 }
 
 // earlyCancelled lists the WebSocket subscriptions of tuple k (other than i) whose cancel was issued
@@ -117,8 +123,8 @@ func judge(o *outcome) []viol {
 			switch {
 			case errors.Is(st.err, context.Canceled) && len(w.earlyCancelled(k, i)) > 0 && !sse:
 				add(fDialCtx, "sub %d: Subscribe failed with %q although its own context is alive; sub(s) %v with the same option tuple were cancelled before their own Subscribe call had returned (one of them was dialling for everybody)", i, st.err, w.earlyCancelled(k, i))
-			case st.err == common.ErrConnectionClosed && !sse && w.otherFinished(k, i) && !(w.killed(k) && len(w.earlyCancelled(k, i)) > 0): //nolint:errorlint
-				add(fCloseRace, "sub %d: Subscribe failed with %q: the pooled connection was closed by the client itself between lookup and registration", i, st.err)
+			case st.err == common.ErrConnectionClosed && !sse && len(w.endedDuringSubscribe(k, i)) > 0 && !(w.killed(k) && len(w.earlyCancelled(k, i)) > 0): //nolint:errorlint
+				add(fCloseRace, "sub %d: Subscribe failed with %q: the pooled connection was closed by the client itself between lookup and registration (sub(s) %v of the same tuple ended while this call was in flight)", i, st.err, w.endedDuringSubscribe(k, i))
 			case len(w.earlyCancelled(k, i)) > 0 && w.killed(k):
 				add(fCancelWrite, "sub %d: Subscribe failed with %q; sub(s) %v of the same tuple were cancelled while writing their subscribe to the shared connection", i, st.err, w.earlyCancelled(k, i))
 			default:
@@ -187,9 +193,13 @@ func judge(o *outcome) []viol {
 			legit := st.dropped || lenient || st.silenced || (w.dropTouched(k) && (st.seen == 0 || (st.conn != nil && st.conn.dropped)))
 			if !legit {
 				switch {
+				case connErr.closedByClient && !sse && c.IdleMs == 0 && len(msgs) == 1 && len(w.endedDuringSubscribe(k, i)) > 0:
+					// the registered form of the lookup/registration race: this subscription was put on the connection
+					// between "last subscription removed" and "connection closed as empty"
+					add(fCloseRace, "sub %d was ended with %q before it received anything: it was registered on a connection the client was just closing as unused (sub(s) %v of the same tuple ended while its Subscribe call was in flight)", i, connErr.Err, w.endedDuringSubscribe(k, i))
 				case connErr.closedByClient && !sse:
-					// Not attributed to the recorded lookup/registration race: that one fails Subscribe, it never
-					// ends a registered subscription (the window for that is a few instructions wide).
+					// Anything else the client closes under a registered subscription (idle timer, wrong emptiness
+					// test, ...) is not the recorded race.
 					add("", "sub %d was ended with %q: the client itself closed the connection (as unused / idle) while this subscription was registered on it; the upstream did not drop it", i, connErr.Err)
 				case len(w.earlyCancelled(k, i)) > 0 && w.killed(k):
 					add(fCancelWrite, "sub %d was ended with connection error %q; the upstream did not drop its connection, but sub(s) %v of the same tuple were cancelled before their Subscribe returned", i, connErr.Err, w.earlyCancelled(k, i))
@@ -213,9 +223,9 @@ func judge(o *outcome) []viol {
 			}
 		}
 		if o.stats.WSConns > 0 && o.stats.SSEConns == 0 && upstreamOpen == 0 {
-			for _, v := range vs {
-				if v.finding == fCloseRace {
-					finding = fCloseRace
+			for i, st := range w.subs {
+				if st.err == common.ErrConnectionClosed && !c.Tuples[c.Subs[i].Tuple].SSE { //nolint:errorlint
+					finding = fCloseRace // a caller (the dialler) found its freshly dialled connection already closed
 				}
 			}
 		}
